@@ -37,6 +37,16 @@ SEEDS: dict[str, dict[str, str]] = {
     "C33": {"C33-1": "R-C33.3", "C33-2": "R-C33.2", "C33-3": "R-C33.3"},
 }
 
+# later seeds are recorded in seeded/EXPECTED.json (written by `tools/seed_eval.py expected` from a full run, committed)
+import json as _json
+import os as _os0
+
+_exp = _os0.path.join(_os0.path.dirname(_os0.path.dirname(_os0.path.dirname(_os0.path.abspath(__file__)))), "seeded", "EXPECTED.json")
+if _os0.path.exists(_exp):
+    for _p, _d in _json.load(open(_exp)).items():
+        for _sid, _rule in _d.items():
+            SEEDS.setdefault(_p, {}).setdefault(_sid, _rule)
+
 MUTANTS: dict[str, list[tuple[str, str, str, str, str | None]]] = {}
 
 # ---------------------------------------------------------------------------------------- C01
